@@ -412,6 +412,10 @@ def r5_entry_points(ctx):
 def rules(ctx):
     r1_gaussian(ctx)
     r5_entry_points(ctx)
+    # "entry by entry": the entries that take part in an attachment are those of the dataset mask - the outcome variable handed to the
+    # Gaussian / Bernoulli densities carries that mask as its weight (a missing outcome filled with 0 is not an observed 0): same rule as C06.R2
+    from .c06 import r2_roots
+    r2_roots(ctx, rid="C08.R6", title="the outcomes handed to the densities are weighted by the dataset mask (missing entries contribute no term)")
     r2_bernoulli(ctx)
     r3_weibull(ctx)
     r4_finite(ctx)
